@@ -98,7 +98,8 @@ def value_code_repr(obj):
     result = code_repr_dispatch(obj)
 
     try:
-        ast.parse(result)
+        # the code is used as an expression: "x=5" or "pass" is valid python code too
+        ast.parse(result, mode="eval")
     except SyntaxError:
         return real_repr(HasRepr(type(obj), result))
 
